@@ -259,6 +259,12 @@ impl AsyncCopiaSync {
             }
         }
 
+        // `write_all` into a sink that writes in the background (`tokio::fs::File`) only
+        // hands the bytes over: a write that fails afterwards (disk full, I/O error) is
+        // reported by the NEXT operation on the sink. Flush, so that a failure of the last
+        // write is an error of this call instead of a silently short output.
+        output.flush().await?;
+
         if self.config.verify_checksum {
             let computed = StrongHash::from_bytes(*hasher.finalize().as_bytes());
             if computed != delta.checksum {
